@@ -262,6 +262,8 @@ class RunMonitor:
             "nan": float("nan"), "inf": float("inf"), "-inf": float("-inf"), "complex": complex(1.0, 2.0),
             "vec2": np.array([good, good]), "list2": [good, good], "none": None, "str": "1.0",
             "npnan": np.float64("nan"), "arrnan": np.array([np.nan]), "empty": np.array([]),
+            # a complex value whose imaginary part is round-off sized is still not a real scalar
+            "complex-tiny-np": np.complex128(complex(good, 1e-12)), "complex-tiny-py": complex(good, 3e-9),
         }
         if kind.startswith("val:"):
             v = vals[kind.split(":", 1)[1]]
